@@ -281,7 +281,7 @@ def c01_6(ctx: Ctx):
               "the counter is itertools.count()", "the id source changed")
 
 
-@rule("C01.7", ["C01", "C10"], "every interval is split before the rewrite and every partition joined after it", 5)
+@rule("C01.7", ["C01", "C10", "C02", "C05", "C06"], "every interval is split before the rewrite and every partition joined after it", 5)
 def c01_7(ctx: Ctx):
     fi = ctx.repo.func("prepare.prepare_for_rewriting")
     lin = linear(fi.node)
